@@ -186,8 +186,11 @@ MUST_FIRE = [
     ('record dumped only for the first source', [(FI, "            self._first_meta = info.meta\n        else:", "            self._first_meta = info.meta\n            pickle.dump(info, self._handle, 2)\n            return\n        else:"),
                                                  (FI, "        pickle.dump(info, self._handle, 2)\n\n    def close", "\n    def close")]),
     ('large records written in pieces that the reader joins up to the next record or the end of the file', [(FI, '        pickle.dump(info, self._handle, 2)\n\n    def close', '        if info.chi2 is None or len(info.chi2) <= 50000:\n            pieces = [info]\n        else:\n            pieces = []\n            for start in range(0, len(info.chi2), 50000):\n                piece = copy(info)\n                piece.meta = info.meta\n                piece.av = info.av[start:start + 50000]\n                piece.sc = info.sc[start:start + 50000]\n                piece.chi2 = info.chi2[start:start + 50000]\n                piece.model_id = info.model_id[start:start + 50000]\n                piece.model_name = info.model_name[start:start + 50000]\n                if info.model_fluxes is not None:\n                    piece.model_fluxes = info.model_fluxes[start:start + 50000]\n                pieces.append(piece)\n        for piece in pieces[1:]:\n            piece.source = None\n        for piece in pieces:\n            pickle.dump(piece, self._handle, 2)\n\n    def close'), (FI, '            while True:\n                try:\n                    info = pickle.load(self._handle)\n                except EOFError:\n                    return\n                else:\n                    info.meta = self._first_meta\n                    yield info\n        else:', '            pieces = []\n            while True:\n                try:\n                    item = pickle.load(self._handle)\n                except EOFError:\n                    break\n                if item.source is None and len(pieces) > 0:\n                    pieces.append(item)\n                    continue\n                if len(pieces) > 0:\n                    info = self._join(pieces)\n                    info.meta = self._first_meta\n                    yield info\n                pieces = [item]\n            if len(pieces) > 0:\n                info = self._join(pieces)\n                info.meta = self._first_meta\n                yield info\n        else:'), (FI, "    def close(self):", '    @staticmethod\n    def _join(pieces):\n        info = pieces[0]\n        if len(pieces) > 1:\n            info.av = np.concatenate([p.av for p in pieces])\n            info.sc = np.concatenate([p.sc for p in pieces])\n            info.chi2 = np.concatenate([p.chi2 for p in pieces])\n            info.model_id = np.concatenate([p.model_id for p in pieces])\n            info.model_name = np.concatenate([p.model_name for p in pieces])\n            if info.model_fluxes is not None:\n                info.model_fluxes = np.concatenate([p.model_fluxes for p in pieces])\n        return info\n\n    def close(self):')]),
+    ('one Pickler for the whole file: an object written again is stored as a reference to its first copy', [(FI, "self._handle = open(fits, mode + 'b')", "self._handle = open(fits, mode + 'b')\n            self._pickler = None"), (FI, '        pickle.dump(info, self._handle, 2)\n\n    def close', '        if self._pickler is None:\n            self._pickler = pickle.Pickler(self._handle, 2)\n        self._pickler.dump(info)\n\n    def close')]),
+    ('__setstate__ re-sorts records whose chi2 is not in increasing order', [(FI, "        self.model_fluxes = d['model_fluxes']\n", "        self.model_fluxes = d['model_fluxes']\n        if self.chi2 is not None and np.any(self.chi2[1:] < self.chi2[:-1]):\n            self.sort()\n")]),
 ]
 MUST_SILENT = [
+    ('one Pickler for the whole file, its memo cleared after every record', [(FI, "self._handle = open(fits, mode + 'b')", "self._handle = open(fits, mode + 'b')\n            self._pickler = None"), (FI, '        pickle.dump(info, self._handle, 2)\n\n    def close', '        if self._pickler is None:\n            self._pickler = pickle.Pickler(self._handle, 2)\n        self._pickler.dump(info)\n        self._pickler.clear_memo()\n\n    def close')]),
     ('large records written in counted pieces, handed out only when every piece was read', [(FI, '        pickle.dump(info, self._handle, 2)\n\n    def close', '        if info.chi2 is None or len(info.chi2) <= 50000:\n            pieces = [info]\n        else:\n            pieces = []\n            for start in range(0, len(info.chi2), 50000):\n                piece = copy(info)\n                piece.meta = info.meta\n                piece.av = info.av[start:start + 50000]\n                piece.sc = info.sc[start:start + 50000]\n                piece.chi2 = info.chi2[start:start + 50000]\n                piece.model_id = info.model_id[start:start + 50000]\n                piece.model_name = info.model_name[start:start + 50000]\n                if info.model_fluxes is not None:\n                    piece.model_fluxes = info.model_fluxes[start:start + 50000]\n                pieces.append(piece)\n        pickle.dump(len(pieces), self._handle, 2)\n        for piece in pieces:\n            pickle.dump(piece, self._handle, 2)\n\n    def close'), (FI, '                try:\n                    info = pickle.load(self._handle)\n                except EOFError:\n                    return\n                else:\n                    info.meta = self._first_meta\n                    yield info', '                try:\n                    n = pickle.load(self._handle)\n                    pieces = [pickle.load(self._handle) for k in range(n)]\n                except EOFError:\n                    return\n                else:\n                    info = pieces[0]\n                    if len(pieces) > 1:\n                        info.av = np.concatenate([p.av for p in pieces])\n                        info.sc = np.concatenate([p.sc for p in pieces])\n                        info.chi2 = np.concatenate([p.chi2 for p in pieces])\n                        info.model_id = np.concatenate([p.model_id for p in pieces])\n                        info.model_name = np.concatenate([p.model_name for p in pieces])\n                        if info.model_fluxes is not None:\n                            info.model_fluxes = np.concatenate([p.model_fluxes for p in pieces])\n                    info.meta = self._first_meta\n                    yield info')]),
     ('handler re-raises other errors explicitly', [(FI, "                except EOFError:\n                    return\n", "                except EOFError:\n                    return\n                except pickle.UnpicklingError:\n                    raise\n")]),
     ('yield after the try via else-free form', [(FI, "                except EOFError:\n                    return\n                else:\n                    info.meta = self._first_meta\n                    yield info",
